@@ -2,6 +2,7 @@
 from . import _secp as S
 
 ID = "C05"
+EXTRA_TARGETS = ["Proofs/EcdsaRefine.vo", "Proofs/EcdsaAbstractInst.vo"]
 LEVEL = "partial"
 RULE = ("keys {1, 2, 3, n-1, n-2, 2^255, 2^255-1, n/2, n/2+1, random} (and rejected ones: 0, n, n+1, 2^256-1, 31/33 bytes) x "
         "messages of length 0..200 (incl. 55/56/64 and long LCG streams) x {sha256, sha256d} x reverse_k x compression for every "
